@@ -34,7 +34,7 @@ def special_c15(pid, tier, seed, st, res, chk):
     g = chk.run([harness, "gen", pid, tier, str(seed)])
     seq = [l for l in g.stdout.split("\n") if l]
     if tier == "quick":
-        seq = seq[:620]
+        seq = seq[:1000]
     t0 = time.time()
     hist = chk.pipe_lines([harness, "run"], seq, timeout=1200)          # one process, one history
     distinct = sorted(set(seq))
